@@ -10,7 +10,7 @@ const SHORTS: &[&str] = &[
     "RANG", "AUTO", "STAR", "STOP", "CENT", "SPAN", "DC", "AC", "IMM", "LEV", "MODE", "ZZZZZZ",
 ];
 const TAILS: &[&str] = &["", "", "", "ger", "nel", "uency", "age", "ent", "e", "ce", "put", "ure", "igure", "us", "em", "lay", "ibrate", "ory", "iate", "t", "e", "omatic", "er", "el", "x"];
-const SUFS: &[&str] = &["", "", "", "", "1", "2", "3", "10", "125"];
+const SUFS: &[&str] = &["", "", "", "", "", "", "1", "2", "3", "10", "125", "21", "11", "101", "12"];
 
 pub fn gen_name(rng: &mut Rng) -> Vec<u8> {
     loop {
@@ -124,7 +124,7 @@ impl TreeGen {
                 let base = &out[rng.usize(out.len())].name;
                 let (h, _) = split_suffix(base);
                 let mut v = h.to_vec();
-                v.extend_from_slice(rng.pick(&["", "1", "2", "3", "10", "12"]).as_bytes());
+                v.extend_from_slice(rng.pick(&["", "1", "2", "3", "10", "12", "21", "11", "101", "121", "31"]).as_bytes());
                 if h.is_empty() || v.len() > 12 { gen_name(rng) } else { v }
             } else {
                 gen_name(rng)
